@@ -14,6 +14,8 @@ Inductive vmode := VNo | VFull | VLine.
 Inductive op :=
 | ORead (fs : list rfmt)              (* f:read(fmt, ...) ; f:read() is ORead [FLine] *)
 | OLines (k : nat)                    (* it = f:lines(); it() up to k times, stopping after a nil *)
+| ONext (k : nat)                     (* the iterator of the handle's last f:lines(), called again up to k
+                                         times (it exists: the harness only asks when it got one) *)
 | OWrite (ss : list bytes)            (* f:write(s1, ...) *)
 | OSeek (w : whence) (off : Z)
 | OFlush
@@ -187,6 +189,10 @@ Definition sstep (crlf : bool) (c : bytes) (h : shandle) (o : op) : bytes * shan
     let (r, p) := s_reads crlf c (s_pos h) fs [] in (c, s_setpos h p, r)
   | OLines k =>
     if negb (s_rd h) then (c, h, RFail) else
+    let (l, p) := s_lines crlf c (s_pos h) k [] in (c, s_setpos h p, RVals l)
+  | ONext k =>
+    (* a step of an iterator made before is an operation on the handle like any other *)
+    if negb (s_rd h) then (c, h, RUnsupported) else
     let (l, p) := s_lines crlf c (s_pos h) k [] in (c, s_setpos h p, RVals l)
   | OWrite ss =>
     if negb (s_wr h) then (c, h, RFail) else
